@@ -18,6 +18,7 @@ void tool_generate(Plan &p, sim::Rng &r, const std::string &) {
   p.variant = 0;
   if (r.chance(0.4)) p.variant |= V_TWO;
   if (r.chance(0.2)) p.variant |= V_SIMPLE;
+  if (p.sparse_mask && r.chance(0.7)) p.chain = 1;  // single beads: a sparse frame then has an empty neighbour list
 }
 
 js::Value tool_variant_json(const Plan &p) {
